@@ -225,6 +225,8 @@ def run(ctx):
     # ---- (2) every configuration item of every rule: in range / out of range / wrongly typed x lenient / strict
     icases = []
     for rid, r in sorted(rules.items()):
+        if not r["file"].startswith("rule_"):
+            continue                      # the debug-only plug-in has no query_config: `plugins info` shows no items for it
         for it in r["items"]:
             cands = candidates(it)
             pairs = [(None, None)] + [(None, v) for v in cands] + [(v, None) for v in cands[:3]] + [(cands[0], v) for v in cands[1:3]] + [(cands[1], cands[0])]
